@@ -81,9 +81,12 @@ INST = {
     "chain_a": (I("Chain", "ParentChain", "RootP", "KidsChain", "MR0_3", 1, "SendG", "T1", "T1onP", "G_t1", 0), chain(0), T(t1=("P", True))),
     "chain_b": (I("Chain", "ParentChain", "RootP", "KidsChain", "MR0_3", 0, "SendG", "T2", "TgtCP", "G_all", 0), chain(0),
                 T(t1=("C", True), t2=("P", True))),
-    # the parent's Started handler calls SpawnChild again in every incarnation: duplicate while the child lives, fresh child after it has gone
-    "pair_r": (I("Pair", "ParentPair", "RootP", "KidsPair", "MR1_2", 2, "Pair", "T1", "T1onP", "G_t1", 2, crash="UserOnly", respawn=True),
+    # the parent's Started handler calls SpawnChild again in every incarnation: a duplicate while the child lives (pair_r),
+    # a fresh child under the same id after the old one has exhausted its budget and gone (pair_rr)
+    "pair_r": (I("Pair", "ParentPair", "RootP", "KidsPair", "MR1_2", 1, "SendP", "T1", "T1onP", "G_t1", 1, crash="UserOnly", respawn=True),
                {"P": {"parent": "", "kids": ["C"], "maxRestarts": 1, "respawnKids": True}, "C": {"parent": "P", "kids": [], "maxRestarts": 1}}, T(t1=("P", True))),
+    "pair_rr": (I("Pair", "ParentPair", "RootP", "KidsPair", "MRc0p1", 2, "Pair", "T1", "T1onP", "G_t1", 2, crash="UserOnly", respawn=True),
+                {"P": {"parent": "", "kids": ["C"], "maxRestarts": 1, "respawnKids": True}, "C": {"parent": "P", "kids": [], "maxRestarts": 0}}, T(t1=("P", True))),
     "fan_a": (I("Fan", "ParentFan", "RootP", "KidsFan", "MR0_F", 1, "SendC", "T1", "T1onP", "G_t1", 0), fan(0), T(t1=("P", True))),
 }
 
@@ -91,19 +94,20 @@ ALL_QUICK = ["one_a", "one_b", "one_c", "one_d", "one_f", "one_g", "pair_a", "ch
 PLAN = {
     "quick": {
         "C02": ["one_a", "one_c", "one_d", "one_f", "one_i", "pair_a"],
-        "C04": ["one_a", "one_b", "one_c", "one_d", "one_g", "one_s", "succ_a", "succ_b", "pair_a"],
+        "C04": ["one_a", "one_b", "one_c", "one_d", "one_g", "one_s", "succ_a", "succ_b", "pair_a", "pair_r"],
         "C05": ["one_a", "one_c", "one_f", "one_g", "one_h", "one_i", "one_s", "pair_a"],
         "C06": ["one_c", "one_d", "one_f", "one_g", "one_j", "pair_a", "pair_b"],
         "C07": ["one_a", "one_b", "one_d", "one_s", "pair_a", "chain_b"],
         "C08": ["pair_a", "pair_b", "chain_a", "chain_b", "fan_a"],
         "C13": ["one_a", "one_c", "one_d", "one_g", "pair_a"],
         "C12": ["one_a", "one_c", "one_d", "dup_a", "pair_a"],
-        "C10": ["dup_a", "dup_b", "succ_a", "one_a", "pair_a"],
+        "C10": ["dup_a", "dup_b", "succ_a", "pair_r", "one_a", "pair_a"],
     },
     "thorough": {p: ["one_a", "one_b", "one_c", "one_d", "one_e", "one_f", "one_g", "one_h", "one_i", "one_j", "one_s", "succ_a", "succ_b", "pair_a", "pair_b", "chain_a", "chain_b", "fan_a"]
                  for p in ("C02", "C04", "C05", "C06", "C07", "C08", "C13", "C12")},
 }
-PLAN["thorough"]["C10"] = ["dup_a", "dup_b", "one_a", "one_d", "pair_a", "pair_b", "chain_a"]
+PLAN["thorough"]["C10"] = ["dup_a", "dup_b", "succ_a", "succ_b", "pair_r", "pair_rr", "one_a", "one_d", "pair_a", "pair_b", "chain_a"]
+PLAN["thorough"]["C04"] += ["pair_r", "pair_rr"]
 PLAN["thorough"]["C12"].append("dup_a")
 _unused = {
 }
